@@ -116,8 +116,9 @@ def slotted(  # noqa: C901
 
         # Pickle fix for frozen dataclass as mentioned in https://bugs.python.org/issue36424
         # Use only if __getstate__ and __setstate__ are not declared and frozen=True
+        declared = {name for c in cls.__mro__[:-1] for name in vars(c)}
         if (
-            all(param not in cls_dict for param in ["__getstate__", "__setstate__"])
+            all(param not in declared for param in ["__getstate__", "__setstate__"])
             and cls.__dataclass_params__.frozen
         ):
             cls_dict["__setstate__"] = _slots_setstate
